@@ -3,7 +3,8 @@
      stdin: one case per line   B=<dec>;<obj>,<obj>,...|<op> <op> ...
        B      hash of the arena base: object k lives at address 8*(B+off_k)
        obj    <k>:<off>[:<t>.<t>...[:<u>.<u>r...]]   id, word offset, ids its destructor deletes (in order),
-              ids it allocates afterwards (suffix r = alloc_root)
+              ids it allocates afterwards, in order (suffix r = alloc_root, suffix t = temporary:
+              allocated and deleted again at once)
        ops    a<k> alloc   A<k> alloc_root   w<k> alloc_raw (no registry effect)
               d<k> del     x<k> del_raw (destructor runs)
               k[<w>.<w>...] words the stack scan will see from now on: <k> = address of
@@ -25,7 +26,7 @@ let n_of_i i = n_of_int i
 let i_of_n n = int_of_n n
 
 type objs = { ids : int list; off : (int, n) Hashtbl.t; own : (int, int list) Hashtbl.t;
-              spw : (int, (int * bool) list) Hashtbl.t }
+              spw : (int, (int * bool * bool) list) Hashtbl.t }
 
 let parse_objs s =
   let o = { ids = []; off = Hashtbl.create 16; own = Hashtbl.create 16; spw = Hashtbl.create 16 } in
@@ -36,7 +37,10 @@ let parse_objs s =
       Hashtbl.replace o.off k (n_of_dec off);
       let spawn_of u =
         let n = String.length u in
-        if n > 0 && u.[n - 1] = 'r' then (int_of_string (String.sub u 0 (n - 1)), true) else (int_of_string u, false) in
+        let rec digits i = if i < n && u.[i] >= '0' && u.[i] <= '9' then digits (i + 1) else i in
+        let j = digits 0 in
+        let suf = String.sub u j (n - j) in
+        (int_of_string (String.sub u 0 j), String.contains suf 'r', String.contains suf 't') in
       (match rest with
        | [ts] -> Hashtbl.replace o.own k (List.map int_of_string (split_on '.' ts)); Hashtbl.replace o.spw k []
        | [ts; us] -> Hashtbl.replace o.own k (List.map int_of_string (split_on '.' ts));
@@ -61,7 +65,8 @@ let model_case line =
     List.iter (fun k -> Hashtbl.replace rev (n_to_dec (addr k)) k) o.ids;
     let id_of p = match Hashtbl.find_opt rev (n_to_dec p) with Some k -> string_of_int k | None -> "X" in
     let ow = List.map (fun k -> (addr k, List.map addr (Hashtbl.find o.own k))) o.ids in
-    let sp = List.map (fun k -> (addr k, List.map (fun (t, r) -> (addr t, r)) (Hashtbl.find o.spw k))) o.ids in
+    let sp = List.map (fun k -> (addr k, List.map (fun (t, r, tmp) ->
+               if tmp then DTemp (addr t, r) else DSpawn (addr t, r)) (Hashtbl.find o.spw k))) o.ids in
     let step = rg_step ow sp rg_rem_fin rg_null_first in
     let out_s = function OOk -> "ok" | OBool b -> if b then "true" else "false"
                        | OCrash -> "CRASH" | OFuel -> "OUTOFFUEL" in
